@@ -16,7 +16,7 @@ Definition q_red (q : Q) : Q := Qred q.
 
 Definition run_kernel (fuel : nat) (name : string) (args : list value) : option outcome :=
   match find_func all_kernels name with
-  | Some g => Some (run all_kernels fuel g args)
+  | Some g => Some (Kernels.run fuel g args)
   | None => None
   end.
 
